@@ -66,11 +66,28 @@ static int import_cb(void *ctx, const char *base, const char *rel, char **found_
 		else snprintf(path, sizeof path, "%s/%s", attempt < 0 ? base : cb_dirs[attempt], rel);
 		FILE *f = fopen(path, "rb");
 		if (!f) continue;
-		fseek(f, 0, SEEK_END);
-		long n = ftell(f);
-		fseek(f, 0, SEEK_SET);
-		char *data = jsonnet_realloc(vm, NULL, n > 0 ? n : 1);
-		if (n > 0 && fread(data, 1, n, f) != (size_t)n) { fclose(f); continue; }
+		long n;
+		char *data;
+		if (cb_calls % 2) {
+			/* whole file into one exactly sized buffer */
+			fseek(f, 0, SEEK_END);
+			n = ftell(f);
+			fseek(f, 0, SEEK_SET);
+			data = jsonnet_realloc(vm, NULL, n > 0 ? n : 1);
+			if (n > 0 && fread(data, 1, n, f) != (size_t)n) { fclose(f); continue; }
+		} else {
+			/* in small chunks, growing the buffer with jsonnet_realloc as libjsonnet.h allows */
+			char chunk[7];
+			size_t r;
+			n = 0;
+			data = NULL;
+			while ((r = fread(chunk, 1, sizeof chunk, f)) > 0) {
+				data = jsonnet_realloc(vm, data, n + r);
+				memcpy(data + n, chunk, r);
+				n += r;
+			}
+			if (!data) data = jsonnet_realloc(vm, NULL, 1);
+		}
 		fclose(f);
 		*buf = data;
 		*buflen = n;
